@@ -157,17 +157,23 @@ fn ty(name: &str) -> Value {
         "VecUser" => RTy::Vec(Box::new(RTy::Named("User".into()))),
         "OptVecUser" => RTy::Opt(Box::new(RTy::Vec(Box::new(RTy::Named("User".into()))))),
         "VecBool" => RTy::Vec(Box::new(p("bool"))),
+        "OptOptString" => RTy::Opt(Box::new(RTy::Opt(Box::new(p("String"))))),
+        "OptOptI32" => RTy::Opt(Box::new(RTy::Opt(Box::new(p("i32"))))),
+        "OptOptVecString" => RTy::Opt(Box::new(RTy::Opt(Box::new(RTy::Vec(Box::new(p("String"))))))),
+        "VecOptString" => RTy::Vec(Box::new(RTy::Opt(Box::new(p("String"))))),
+        "OptVecI32" => RTy::Opt(Box::new(RTy::Vec(Box::new(p("i32"))))),
         _ => p("bool"),
     }
     .to_json()
 }
 
 pub fn run(out: &mut Out, tier: &str, rng: &mut Rng) {
-    let types = ["String", "i32", "f64", "u8", "VecString", "OptString", "OptI32", "VecI32", "OptVecString", "bool", "VecUser", "OptVecUser", "VecBool"];
+    let types = ["String", "i32", "f64", "u8", "VecString", "OptString", "OptI32", "VecI32", "OptVecString", "bool", "VecUser", "OptVecUser", "VecBool", "OptOptString", "OptOptI32", "OptOptVecString", "VecOptString", "OptVecI32"];
     let safe_msgs = ["Must be valid", "too short!", "Zwischen 1 und 10", "say \"hi\"", "it's fine", "line\nbreak", "tab\there", "a, b and c", "100% [ok] {x}", "between {min} and {max}", "{message}: at least {min}", "{0} {} {{}} $1 %s {value}"];
     let adv_msgs = ["é", "naïve café", "日本語のメッセージ", "a)b", "(paren)", "invalid email address", "minimum is 3", "at most max", "see url", "range error", "back\\slash", "dir\\new", "cr\rlf", "emoji 🎉 done", "x\\\\y", "\"", "ß", "message here", "length!", "too short :(", "(at most three tags", "use the 3.5\" form", "a \" b \" c \" d", "((", "[{(", "1) first (2", "ring\u{7}!", "a\u{8}c", "x\u{1f}y\u{1}", "del\u{7f}ete", "it's 'quoted'", "nbsp\u{a0}here", "line\u{2028}sep", "Allowed: letters , digits , dashes", "Too young (18+", "a ( b ) c", "x ,y", "( lead", "trail )", "sp  aces   kept"];
     let nums_u = ["0", "1", "3", "10", "255", "18446744073709551615", "18446744073709551616", "007"];
-    let nums_f = ["0", "1", "10", "0.5", "1.5", "100.25", "1e3", "2.5e-3", "-5", "-0.5", "+3", "1_000", "1e20", "0.1", "3.14159", "9007199254740993", "5.", "1E3", "2.5E5", "2.5E-1", "1E+2", "1e+2"];
+    let nums_f = ["0", "1", "10", "0.5", "1.5", "100.25", "1e3", "2.5e-3", "-5", "-0.5", "+3", "1_000", "1e20", "0.1", "3.14159", "9007199254740993", "5.", "1E3", "2.5E5", "2.5E-1", "1E+2", "1e+2",
+        "18446744073709551615", "18446744073709551616", "2.5e22", "1e30", "340282366920938463463374607431768211455", "-1e20", "-9223372036854775809", "4294967296"];
     // no validator at all / empty validate
     for t in types {
         // no validator, but other attributes whose text contains the validators' words
